@@ -257,6 +257,7 @@ func c06RouteMatrix(e *c06Env, r *rand.Rand, w *CaseWriter) {
 		e.t.Fatal(err)
 	}
 	gp, _ := app.GovKeeper.Params.Get(base)
+	gp.MinDeposit = sdk.NewCoins(sdk.NewInt64Coin(e.bond, c06GovMin)) // the matrix deposits in the bond denom only
 	d, v := 1000*time.Second, 1000*time.Second
 	gp.MaxDepositPeriod, gp.VotingPeriod = &d, &v
 	if err := app.GovKeeper.Params.Set(base, gp); err != nil {
